@@ -38,6 +38,8 @@ trait CurveDyn {
     fn bitflip(&self, progs: &[Program], stride: usize) -> Vec<Value>;
     fn mutate(&self, progs: &[Program], n: usize, seed: u64) -> Vec<Value>;
     fn batch(&self, jobs: &[Value], record: bool) -> (Vec<Value>, Vec<Value>);
+    fn mkfixtures(&self, progs: &[Program]) -> Vec<Value>;
+    fn fixtures(&self, fxs: &[Value]) -> Vec<Value>;
 }
 struct Dyn<C: Cv>(std::marker::PhantomData<C>);
 impl<C: Cv> CurveDyn for Dyn<C> {
@@ -104,6 +106,12 @@ impl<C: Cv> CurveDyn for Dyn<C> {
     }
     fn bitflip(&self, progs: &[Program], stride: usize) -> Vec<Value> {
         progs.iter().map(|p| { let mut v = wire::bitflip_sweep::<C>(p, stride); v["prog_id"] = serde_json::json!(p.id); v }).collect()
+    }
+    fn mkfixtures(&self, progs: &[Program]) -> Vec<Value> {
+        progs.iter().map(|p| wire::make_fixture::<C>(p)).collect()
+    }
+    fn fixtures(&self, fxs: &[Value]) -> Vec<Value> {
+        fxs.iter().map(|f| wire::check_fixture::<C>(f)).collect()
     }
     fn batch(&self, jobs: &[Value], record: bool) -> (Vec<Value>, Vec<Value>) {
         let (mut ev, mut res) = (vec![], vec![]);
@@ -238,6 +246,20 @@ fn main() {
             if let Some(t) = trace {
                 write_json_lines(&t, &ev);
             }
+        }
+        // mkfixture --curve C --programs FILE --out FILE   (run once, at the reference revision)
+        "mkfixture" => {
+            let curve = arg(&args, "--curve").unwrap();
+            let progs = read_programs(&arg(&args, "--programs").unwrap());
+            let rows = with_curve(&curve, |c| c.mkfixtures(&progs));
+            write_json_lines(&arg(&args, "--out").unwrap(), &rows);
+        }
+        // fixture --curve C --fixtures FILE --out FILE
+        "fixture" => {
+            let curve = arg(&args, "--curve").unwrap();
+            let fxs = read_json_lines(&arg(&args, "--fixtures").unwrap());
+            let rows = with_curve(&curve, |c| c.fixtures(&fxs));
+            write_json_lines(&arg(&args, "--out").unwrap(), &rows);
         }
         // genprogs --seed S --n N --out FILE [--maxops K] [--modulus P]
         "genprogs" => {
